@@ -238,7 +238,8 @@ pub fn apply_layout(t: &mut Tape, tokens: &[Tok], dims: &mut LayoutDims, allow_c
                 sep.push_str(if t.chance(1, 3) { "\r\n" } else { "\n" });
                 dims.comments = true;
             } else if ws_dim && t.chance(1, 3) {
-                sep.push_str(*t.pick(&["  ", "\t", "\n", "\r\n", " \n  ", "\n\n", " \t "]));
+                // (every kind of white space char::is_whitespace knows, not only blank / tab / line feed)
+                sep.push_str(*t.pick(&["  ", "\t", "\n", "\r\n", " \n  ", "\n\n", " \t ", "\u{b}", "\u{c}", "\r", "\u{a0}", "\u{2003}\u{3000}", "\u{85}", "\u{2028}", " \u{b} "]));
                 dims.whitespace = true;
             } else if !need && tight_dim && t.chance(1, 2) {
                 dims.tight = true;
